@@ -101,7 +101,16 @@ func goMapDefineOwnProperty(obj *object, name string, descriptor property, throw
 	if !descriptor.isDataDescriptor() {
 		return obj.runtime.typeErrorResult(throw)
 	}
-	goObj.value.SetMapIndex(goObj.toKey(name), goObj.toValue(descriptor.value.(Value)))
+	value, hasValue := descriptor.value.(Value)
+	if !hasValue {
+		// {writable: true, enumerable: true, configurable: true} without a [[Value]]:
+		// an existing element stays as it is, a new one would need a value (8.12.9, reject)
+		if goMapGetOwnProperty(obj, name) != nil {
+			return true
+		}
+		return obj.runtime.typeErrorResult(throw)
+	}
+	goObj.value.SetMapIndex(goObj.toKey(name), goObj.toValue(value))
 	return true
 }
 
